@@ -1618,6 +1618,63 @@ theorem countLoop_safe (X : Ctx) (hq : ∀ k, X.o.panicAt k = false) (hz : 0 < X
             rw [hdi] at this; simp only at this; rw [this]; exact hg'
           exact ih (acc + 1) w2 o' h3 hg2 hi' (by omega)
 
+/-- the provided `last` (a `fold` that keeps the newest element and destroys the one it replaces): never out of fuel,
+    every register stays well formed, a sane result -/
+theorem lastLoop_safe (X : Ctx) (hq : ∀ k, X.o.panicAt k = false) (hz : 0 < X.c.elemSize) (it : String) :
+    ∀ (fuel : Nat) (prev : Option Elem) (w : World) (o : Obj), WFW X w → w.get it = some o → isIterObj o = true →
+    regMeasure o < fuel →
+    WFW X (lastLoop X it fuel prev w).1 ∧ outSane (lastLoop X it fuel prev w).2 := by
+  intro fuel
+  induction fuel with
+  | zero => intro prev w o _ _ _ hm; omega
+  | succ fuel ih =>
+    intro prev w o hw hg hi hm
+    obtain ⟨o', hg', hi', hw', hout⟩ := next_measure X hq w it o hw hg hi
+    unfold lastLoop
+    cases hs : step X w (.next it) with
+    | mk w1 out =>
+      rw [hs] at hg' hw' hout
+      simp only at hg' hw' hout
+      rcases hout with hnone | ⟨e, hsome, hlt⟩
+      · subst hnone
+        simp only
+        obtain ⟨h1, h2⟩ := C03_world_step_partial X hq hz w1 (.drop it) rfl hw'
+        cases hd : step X w1 (.drop it) with
+        | mk w2 o2 =>
+          rw [hd] at h1 h2
+          cases o2 <;> first | exact ⟨h1, outSane_optOut prev⟩ | exact ⟨h1, trivial⟩ | exact ⟨h1, h2⟩ | skip
+          rename_i q
+          -- (cannot happen without a panicking destructor; the statement does not need that)
+          cases prev with
+          | none => exact ⟨h1, h2⟩
+          | some pv =>
+            simp only
+            split
+            · obtain ⟨h3, h4⟩ := dropIn_safe X hq w2 pv h1
+              cases hdi : dropIn X w2 pv with
+              | mk w3 r =>
+                rw [hdi] at h3 h4
+                simp only at h4
+                subst h4
+                exact ⟨h3, h2⟩
+            · exact ⟨h1, h2⟩
+      · subst hsome
+        simp only
+        cases prev with
+        | none => exact ih (some e) w1 o' hw' hg' hi' (by omega)
+        | some pv =>
+          simp only
+          obtain ⟨h3, h4⟩ := dropIn_safe X hq w1 pv hw'
+          cases hdi : dropIn X w1 pv with
+          | mk w2 r =>
+            rw [hdi] at h3 h4
+            simp only at h4
+            subst h4
+            have hg2 : w2.get it = some o' := by
+              have := dropIn_get X w1 pv it
+              rw [hdi] at this; simp only at this; rw [this]; exact hg'
+            exact ih (some e) w2 o' h3 hg2 hi' (by omega)
+
 theorem world_get_unset (w : World) (r r' : String) : (w.unset r).get r' = if r' = r then none else w.get r' := by
   unfold World.unset World.get
   simp only
@@ -1672,7 +1729,7 @@ theorem cloneFromIter_safe (X : Ctx) (hq : ∀ k, X.o.panicAt k = false) (hz : 0
 
 /-- `stepAll` (what the driver runs): the covered operations plus `nth` / `nth_back` / `count` / `clone_from_iter` -/
 def opCoveredAll : Op → Bool
-  | .nth .. | .nth_back .. | .count _ | .clone_from_iter .. => true
+  | .nth .. | .nth_back .. | .count _ | .last _ | .clone_from_iter .. => true
   | op => opCovered op
 
 theorem C03_world_stepAll_partial (X : Ctx) (hq : ∀ k, X.o.panicAt k = false) (hz : 0 < X.c.elemSize) (w : World) (op : Op)
@@ -1700,6 +1757,24 @@ theorem C03_world_stepAll_partial (X : Ctx) (hq : ∀ k, X.o.panicAt k = false) 
           unfold step; cases o <;> simp [isIterObj] at hio <;> simp only [hg, regMeasure, Drain.size_hint]
         simp only [hsh]
         exact countLoop_safe X hq hz it (regMeasure o + 2) 0 w o hw hg hio (by omega)
+  case last it =>
+    simp only [stepAll]
+    cases hg : w.get it with
+    | none =>
+      have : step X w (.size_hint it) = (w, .badOp) := by unfold step; simp only [hg]
+      simp only [this]; exact ⟨hw, trivial⟩
+    | some o =>
+      cases hio : isIterObj o with
+      | false =>
+        have : step X w (.size_hint it) = (w, .badOp) := by
+          unfold step; cases o <;> simp [isIterObj] at hio <;> simp only [hg]
+        simp only [this]; exact ⟨hw, trivial⟩
+      | true =>
+        have hsh : step X w (.size_hint it) = (w, .hint (match o with
+            | .drainFilter .. => 0 | _ => regMeasure o) (some (regMeasure o))) := by
+          unfold step; cases o <;> simp [isIterObj] at hio <;> simp only [hg, regMeasure, Drain.size_hint]
+        simp only [hsh]
+        exact lastLoop_safe X hq hz it (regMeasure o + 2) none w o hw hg hio (by omega)
   case clone_from_iter it src => simp only [stepAll]; exact cloneFromIter_safe X hq hz w it src hw
   case nth it k =>
     simp only [stepAll]
